@@ -67,9 +67,25 @@ ALLOWED_ENV_PREFIX = ("FONTTOOLS_",)
 
 
 # ------------------------------------------------------------------ byte comparison helpers
+def _woff_tables(data):
+    """{tag: bytes} of a WOFF 1.0 file, read from the spec (44-byte header, 20-byte directory entries, zlib)."""
+    import struct
+    import zlib
+    n = struct.unpack(">H", data[12:14])[0]
+    tabs = {}
+    for i in range(n):
+        tag, off, clen, olen, _ck = struct.unpack(">4sLLLL", data[44 + 20 * i:64 + 20 * i])
+        raw = data[off:off + clen]
+        tabs[tag.decode("latin-1")] = zlib.decompress(raw) if clen < olen else raw
+    return tabs
+
+
 def table_map(data):
     try:
-        ver, tabs = S.sfnt_tables(data)
+        if data[:4] == b"wOFF":
+            tabs = _woff_tables(data)     # so that a difference inside a WOFF is attributed to its table
+        else:
+            ver, tabs = S.sfnt_tables(data)
     except Exception:
         return None
     out = {}
